@@ -678,6 +678,166 @@ theorem mem_allMembers_iff (pool : List Node) (i : Nat) (v : Int) :
   · rintro ⟨⟨n, hn⟩, rfl⟩
     exact ⟨(n, i), List.mem_zipIdx_iff_getElem?.mpr hn, rfl⟩
 
+/-! ### the offset map of an alive set (a Go map filled in member order) -/
+
+theorem mapGet_mapSet (m : List (Nat × Int)) (k : Nat) (v : Int) (i : Nat) :
+    mapGet (mapSet m k v) i = if k = i then some v else mapGet m i := by
+  unfold mapGet mapSet
+  by_cases hk : k = i
+  · subst hk; simp
+  · rw [if_neg hk, List.find?_cons_of_neg (by simpa using hk)]
+    congr 1
+    rw [List.find?_filter]
+    congr 1
+    funext a
+    by_cases h : a.1 = i
+    · have hne : a.1 ≠ k := fun h' => hk (h' ▸ h)
+      have h1 : (a.1 != k) = true := by simpa using hne
+      have h3 : (a.1 == i) = true := by simpa using h
+      simp [h1, h3]
+    · have h2 : (a.1 == i) = false := by simpa using h
+      simp [h2]
+
+/-- later writes win -/
+theorem mapGet_foldl_mapSet (ms : List (Nat × Int)) : ∀ (m : List (Nat × Int)) (i : Nat),
+    mapGet (ms.foldl (fun m e => mapSet m e.1 e.2) m) i =
+      match ms.reverse.find? (fun e => e.1 == i) with
+      | some e => some e.2
+      | none => mapGet m i := by
+  induction ms with
+  | nil => intro m i; rfl
+  | cons e rest ih =>
+    intro m i
+    rw [List.foldl_cons, ih, List.reverse_cons, List.find?_append]
+    cases hr : rest.reverse.find? (fun e => e.1 == i) with
+    | some e' => rfl
+    | none =>
+      simp only [Option.none_or]
+      rw [mapGet_mapSet]
+      by_cases he : e.1 = i
+      · rw [if_pos he, List.find?_cons_of_pos (by simp [he])]
+      · rw [if_neg he, List.find?_cons_of_neg (by simp [he])]
+        rfl
+
+theorem eq_of_fst_eq_of_pairwise {l : List (Nat × Int)} (hp : l.Pairwise (fun a b => a.1 < b.1))
+    {a b : Nat × Int} (ha : a ∈ l) (hb : b ∈ l) (hab : a.1 = b.1) : a = b := by
+  induction l with
+  | nil => cases ha
+  | cons x xs ih =>
+    obtain ⟨hx, hxs⟩ := List.pairwise_cons.mp hp
+    rcases List.mem_cons.mp ha with rfl | ha' <;> rcases List.mem_cons.mp hb with rfl | hb'
+    · rfl
+    · have := hx b hb'; omega
+    · have := hx a ha'; omega
+    · exact ih hxs ha' hb'
+
+/-- With one entry per member (members are listed once), the map answers each member's own
+annotation and nothing else. -/
+theorem mapGet_offsetTable (ms : List (Nat × Int)) (hp : (ms.map Prod.fst).Pairwise (· < ·)) (i : Nat) :
+    (∀ v, (i, v) ∈ ms → mapGet (offsetTable ms) i = some v) ∧
+    ((∀ v, (i, v) ∉ ms) → mapGet (offsetTable ms) i = none) := by
+  have hp' : ms.Pairwise (fun a b => a.1 < b.1) := List.pairwise_map.mp hp
+  unfold offsetTable
+  rw [mapGet_foldl_mapSet]
+  constructor
+  · intro v hv
+    cases hr : ms.reverse.find? (fun e => e.1 == i) with
+    | some e =>
+      have hmem : e ∈ ms := List.mem_reverse.mp (List.mem_of_find?_eq_some hr)
+      have hk : e.1 = i := by simpa using List.find?_some hr
+      have := eq_of_fst_eq_of_pairwise hp' hmem hv hk
+      subst this
+      rfl
+    | none =>
+      have := List.find?_eq_none.mp hr (i, v) (List.mem_reverse.mpr hv)
+      simp at this
+  · intro hn
+    cases hr : ms.reverse.find? (fun e => e.1 == i) with
+    | some e =>
+      have hmem : e ∈ ms := List.mem_reverse.mp (List.mem_of_find?_eq_some hr)
+      have hk : e.1 = i := by simpa using List.find?_some hr
+      exact absurd (by rw [← hk]; exact hmem) (hn e.2)
+    | none => rfl
+
+/-! ### the outbound name table -/
+
+theorem nameIds_ok_iff (names : List Str) : ∀ (i : Nat) (m r : List (Str × Nat)),
+    nameIds names i m = .ok r ↔
+      (names.Nodup ∧ ∀ nm ∈ names, ∀ e ∈ m, e.1 ≠ nm) ∧
+        r = m ++ (names.zipIdx i).map (fun p => (p.1, p.2 % 256)) := by
+  induction names with
+  | nil =>
+    intro i m r
+    simp [nameIds, eq_comm]
+  | cons nm rest ih =>
+    intro i m r
+    rw [nameIds]
+    by_cases hany : m.any (fun e => e.1 = nm) = true
+    · rw [if_pos hany]
+      obtain ⟨e, he, hen⟩ := List.any_eq_true.mp hany
+      simp only [reduceCtorEq, false_iff, not_and]
+      intro ⟨_, hall⟩
+      exact absurd (by simpa using hen) (hall nm (by simp) e he)
+    · rw [if_neg hany, ih]
+      have hnone : ∀ e ∈ m, e.1 ≠ nm := by
+        intro e he hen
+        exact hany (List.any_eq_true.mpr ⟨e, he, by simpa using hen⟩)
+      rw [List.zipIdx_cons, List.map_cons, List.nodup_cons]
+      constructor
+      · rintro ⟨⟨hnd, hall⟩, rfl⟩
+        refine ⟨⟨⟨?_, hnd⟩, ?_⟩, by simp⟩
+        · intro hmem
+          exact hall nm hmem (nm, i % 256) (by simp) rfl
+        · intro nm' hnm' e he
+          rcases List.mem_cons.mp hnm' with rfl | hr
+          · exact hnone e he
+          · exact hall nm' hr e (by simp [he])
+      · rintro ⟨⟨⟨hnot, hnd⟩, hall⟩, rfl⟩
+        refine ⟨⟨hnd, ?_⟩, by simp⟩
+        intro nm' hnm' e he
+        rcases List.mem_append.mp he with he | he
+        · exact hall nm' (by simp [hnm']) e he
+        · simp only [List.mem_singleton] at he
+          subst he
+          intro heq
+          have hq : nm = nm' := heq
+          exact hnot (hq ▸ hnm')
+
+theorem nameIds_error (names : List Str) : ∀ (i : Nat) (m : List (Str × Nat)) (e : CErr),
+    nameIds names i m = .error e → ∃ nm ∈ names, e = .dupName nm := by
+  induction names with
+  | nil => intro i m e h; simp [nameIds] at h
+  | cons nm rest ih =>
+    intro i m e h
+    rw [nameIds] at h
+    by_cases hany : m.any (fun e => e.1 = nm) = true
+    · rw [if_pos hany] at h
+      exact ⟨nm, by simp, (Except.error.inj h).symm⟩
+    · rw [if_neg hany] at h
+      obtain ⟨nm', hm, he⟩ := ih _ _ _ h
+      exact ⟨nm', by simp [hm], he⟩
+
+theorem idOf_zipIdx (names : List Str) : ∀ (i k : Nat) (hk : k < names.length), names.Nodup →
+    idOf ((names.zipIdx i).map (fun p => (p.1, p.2 % 256))) names[k] = some ((i + k) % 256) := by
+  induction names with
+  | nil => intro i k hk; simp at hk
+  | cons nm rest ih =>
+    intro i k hk hnd
+    obtain ⟨hnot, hnd'⟩ := List.nodup_cons.mp hnd
+    unfold idOf
+    rw [List.zipIdx_cons, List.map_cons]
+    cases k with
+    | zero => simp
+    | succ k =>
+      have hk' : k < rest.length := by simpa using hk
+      have hne : nm ≠ rest[k] := fun h => hnot (h ▸ List.getElem_mem hk')
+      rw [List.getElem_cons_succ, List.find?_cons_of_neg (by simpa using hne)]
+      have := ih (i + 1) k hk' hnd'
+      unfold idOf at this
+      rw [this]
+      congr 2
+      omega
+
 deriving instance DecidableEq for Except
 
 /-! ### a concrete world for the non-vacuity examples -/
@@ -699,6 +859,9 @@ def pool : List Node := [⟨hk1, sub⟩, ⟨sg2, sub⟩, ⟨us3, []⟩, ⟨hk1, 
 def filters : List Line :=
   [[⟨sName, false, [⟨sKeyword, [104, 107]⟩]⟩, ⟨sSubtag, true, [⟨[], sub⟩]⟩], [⟨sName, false, [⟨sRegex, [115]⟩]⟩]]
 def annos : List (List Param) := [[⟨sAddLatency, s0⟩, ⟨sAddLatency, ms5⟩], []]
+/-- `g0 { policy: min }`, `g1 { policy: random; <the demo filters> }` -/
+def twoGroups : List NamedDef :=
+  [⟨[103, 48], ⟨.str sMin, [], []⟩⟩, ⟨[103, 49], ⟨.str sRandom, filters, annos⟩⟩]
 def badFilters : List Line := [[⟨sName, false, [⟨sKeyword, [122]⟩]⟩, ⟨[98], false, []⟩]]
 end Demo
 
